@@ -45,6 +45,8 @@ struct RunCase {
     cont: Vec<Op>,
     #[serde(default)]
     noise_kb: u16,
+    #[serde(default)]
+    noise_boundary: Option<u8>,
 }
 
 fn rstep() -> BoxedStrategy<RStep> {
@@ -74,8 +76,9 @@ fn run_case_strategy() -> BoxedStrategy<RunCase> {
         3u8..8,
         proptest::collection::vec(rv::store::op_strategy(OpWeights { branch: 1, restart: 0, ensure: 0, auto: 2, ..weights() }), 1..4),
         noise_strategy(),
+        boundary_strategy(),
     )
-        .prop_map(|(provider, steps, params, session_stride, surface_stride, cont, noise_kb)| RunCase { provider, steps, params, session_stride, surface_stride, cont, noise_kb })
+        .prop_map(|(provider, steps, params, session_stride, surface_stride, cont, noise_kb, noise_boundary)| RunCase { provider, steps, params, session_stride, surface_stride, cont, noise_kb, noise_boundary })
         .boxed()
 }
 
@@ -440,7 +443,12 @@ fn run_crash(case: &RunCase) -> CaseReport {
                 .collect();
             // ---- continuation through the store API (every evaluated image)
             let mut rit = rit;
-            append_noise_session(&rit.live.log, case.noise_kb, si);
+            if let Some(frac) = case.noise_boundary {
+                let aimed = append_noise_to_boundary(&rit.live.log, &rit.sandbox.log_path(), frac, si);
+                rep.count(if aimed { "noise_aimed_at_window_boundary" } else { "noise_aim_failed" }, 1);
+            } else {
+                append_noise_session(&rit.live.log, case.noise_kb, si);
+            }
             let mut cont_acked: Vec<String> = Vec::new();
             for op in &case.cont {
                 if let Ok(r) = rv::engine::runner::catch(|| rit.apply(op)) {
@@ -538,9 +546,10 @@ fn run_crash(case: &RunCase) -> CaseReport {
         rep.count("images_evaluated", evaluated);
         rep.count("router_restarts", router_restarts);
         rep.count("images_inside_a_step", in_run);
-        rep.class(match case.noise_kb {
-            0 => "noise_before_continuation:none",
-            1..=999 => "noise_before_continuation:<1MiB",
+        rep.class(match (case.noise_boundary, case.noise_kb) {
+            (Some(_), _) => "noise_before_continuation:aimed_at_1MiB_window_boundary",
+            (None, 0) => "noise_before_continuation:none",
+            (None, 1..=999) => "noise_before_continuation:<1MiB",
             _ => "noise_before_continuation:>1MiB",
         });
         rep.class_if(case.provider, "provider:scripted");
